@@ -571,8 +571,8 @@ Qed.
 (* the composition is not vacuous: a two-chunk catalog, a window query that
    matches a row of the second chunk only; both backends select that chunk *)
 Example composition_nonvacuous :
-  let h := [ORegister 1%N (mkMeta 0 10 2%N 1%N); ORegister 2%N (mkMeta 100 300 2%N 1%N)] in
-  let content := fun p => if N.eqb p 1 then [mkRow 1 0; mkRow 3 10]
+  let h := [ORegister 1%N (mkMeta 0 4 2%N 1%N); ORegister 2%N (mkMeta 100 300 2%N 1%N)] in
+  let content := fun p => if N.eqb p 1 then [mkRow 1 0; mkRow 3 4]
                           else if N.eqb p 2 then [mkRow 1 150; mkRow 2 300] else [] in
   let fs := [PAnd (PBetween false (LInt 5) (LInt 200)) (PLabel 1 true)] in
   hist_ok h /\
@@ -582,9 +582,12 @@ Example composition_nonvacuous :
   select_chunks (local_get (local_run h)) no_gate 0 fs = Done [2%N] /\
   filter (sat_all ex_interp fs) (all_rows content h) = [mkRow 1 150].
 Proof.
-  cbv zeta. split; [|split; [|split; [|split]]]; try (vm_compute; reflexivity).
+  cbv zeta. split; [|split; [|split; [|split]]].
   - unfold hist_ok. repeat constructor; vm_compute; discriminate.
   - intros p m r Hin Hr. vm_compute in Hin.
     destruct Hin as [Hin|[Hin|[]]]; inversion Hin; subst p m; cbn in Hr;
       destruct Hr as [Hr|[Hr|[]]]; subst r; vm_compute; intuition discriminate.
+  - vm_compute. reflexivity.
+  - vm_compute. reflexivity.
+  - vm_compute. reflexivity.
 Qed.
